@@ -71,7 +71,64 @@ def coq_hint(h):
         return f'(HLiteral {coq_list([coq_val(v) for v in h[1]])})'
     if t == 'type':
         return f'(HType {coq_list(["c_" + c for c in h[1]])})' if h[1] else '(HCls c_type)'
+    if t == 'annot':
+        return f'(HAnnot {coq_hint(h[1])} {coq_list([coq_vexp(v) for v in h[2]])})'
     raise ValueError(h)
+
+
+def coq_vexp(v):
+    t = v[0]
+    if t == 'is':
+        return f'(VIs {v[1]})'
+    if t == 'attr':
+        return f'(VAttr {coq_str(v[1])} {coq_vexp(v[2])})'
+    if t == 'eq':
+        return f'(VEqual {coq_val(v[1])})'
+    if t == 'inst':
+        return f'(VInst {coq_list(["c_" + c for c in v[1]])})'
+    if t == 'sub':
+        return f'(VSub {coq_list(["c_" + c for c in v[1]])})'
+    if t in ('and', 'or'):
+        return f'({"VAnd" if t == "and" else "VOr"} {coq_vexp(v[1])} {coq_vexp(v[2])})'
+    if t == 'not':
+        return f'(VNot {coq_vexp(v[1])})'
+    raise ValueError(v)
+
+
+def gen_vexp(rng, depth):
+    if depth <= 0 or rng.random() < 0.35:
+        k = rng.choice(['is', 'is', 'eq', 'eq', 'inst', 'sub', 'attr'])
+        if k == 'is':
+            return ['is', rng.randrange(5)]
+        if k == 'eq':
+            return ['eq', rng.choice([['int', 1], ['int', 0], ['str', 'a'], ['bool', True], ['none'], ['str', 'ab']])]
+        if k == 'inst':
+            return ['inst', rng.choice([['int'], ['str'], ['int', 'str'], ['UserA'], ['list'], ['Sized']])]
+        if k == 'sub':
+            return ['sub', rng.choice([['int'], ['UserA'], ['int', 'str']])]
+        return ['attr', rng.choice(['x', 'y']), gen_vexp(rng, depth - 1)]
+    k = rng.choice(['and', 'or', 'not', 'attr'])
+    if k == 'not':
+        return ['not', gen_vexp(rng, depth - 1)]
+    if k == 'attr':
+        return ['attr', rng.choice(['x', 'y']), gen_vexp(rng, depth - 1)]
+    return [k, gen_vexp(rng, depth - 1), gen_vexp(rng, depth - 1)]
+
+
+def gen_annot(rng, depth, vdepth=3):
+    mh = rng.choice([['any', 'object'], ['any', 'Any'], gen_hint(rng, max(0, depth - 1)), ['cls', 'int'],
+                     ['cls', 'UserA'], ['any', 'object']])
+    if mh[0] in ('union', 'optional', 'annot'):
+        mh = ['cls', 'int']
+    return ['annot', mh, [gen_vexp(rng, rng.randint(0, vdepth)) for _ in range(rng.choice([1, 1, 2, 3]))]]
+
+
+def gen_attr_object(rng, depth=2):
+    attrs = []
+    for n in rng.sample(['x', 'y'], rng.choice([0, 1, 2])):
+        v = gen_attr_object(rng, depth - 1) if depth > 0 and rng.random() < 0.4 else gen_scalar(rng)
+        attrs.append([n, v])
+    return ['obj', rng.choice(['UserA', 'UserB', 'UserC']), attrs]
 
 
 # ------------------------------------------------------------------ generators
@@ -95,6 +152,8 @@ def gen_scalar(rng):
 
 def gen_hint(rng, depth):
     """a hint of the modelled grammar G; nesting biased towards containers inside unions inside containers"""
+    if rng.random() < 0.12:
+        return gen_annot(rng, depth)
     if depth <= 0:
         r = rng.random()
         if r < 0.55:
@@ -235,6 +294,13 @@ def gen_sat(rng, h, sizes=(0, 1, 2, 3)):
         return ['cont', 'tuple', [gen_sat(rng, x, sizes) for x in h[1]]]
     if t == 'literal':
         return rng.choice(h[1])
+    if t == 'annot':
+        r = rng.random()
+        if r < 0.35:
+            return gen_attr_object(rng)
+        if r < 0.5:
+            return rng.choice([['int', 1], ['str', 'ab'], ['none'], ['cls', 'int'], ['cls', 'UserB'], ['bool', True]])
+        return gen_sat(rng, h[1], sizes)
     if t == 'type':
         if not h[1]:
             return ['cls', rng.choice(['int', 'UserA', 'list'])]
